@@ -28,8 +28,10 @@ def _vel(draw, mps):
     return [ref.from_si(mps, u), u]
 
 
-def _temp(draw, c):
+def _temp(draw, c, allow_zero=False):
     u = draw(st.sampled_from(TEMP))
+    if allow_zero and u in ("Fahrenheit", "Celsius") and draw(st.integers(0, 7)) == 0:
+        return [0.0, u]           # exactly zero on the scale (a zero quantity is still a given value)
     return [ref.from_si(c + 273.15, u), u]
 
 
@@ -51,10 +53,10 @@ def _case(draw, fire=False):
         case["v1"] = _vel(draw, v0 + dv)
         case["t1"] = _temp(draw, t0 + dt)
         case["signs"] = ("faster" if dv > 0 else "slower") + "-" + ("warmer" if dt > 0 else "colder")
-    case["queries"] = [_temp(draw, draw(st.one_of(st.floats(-60.0, 70.0), st.just(t0)))) for _ in range(6)]
+    case["queries"] = [_temp(draw, draw(st.one_of(st.floats(-60.0, 70.0), st.just(t0))), allow_zero=True) for _ in range(6)]
     if fire:
         case["air_c"] = draw(st.floats(-40.0, 50.0))
-        case["powder_t"] = _temp(draw, draw(st.floats(-50.0, 60.0))) if draw(st.booleans()) else None
+        case["powder_t"] = _temp(draw, draw(st.floats(-50.0, 60.0)), allow_zero=True) if draw(st.booleans()) else None
         case["alt_ft"] = draw(st.floats(0.0, 5000.0))
     return case
 
